@@ -48,6 +48,9 @@ pub struct DebugSession {
     next_progress_id: u64,
     terminated: bool,
     exit_code: Option<i32>,
+    /// `seq` of the request that received a response last
+    /// (a request gets exactly one response, see `run`).
+    answered_request: Option<i64>,
     exception_filters: Vec<String>,
     last_stop: Option<control::LastStop>,
     module_info: Option<init::ModuleInfo>,
@@ -117,6 +120,7 @@ impl DebugSession {
             next_progress_id: 1,
             terminated: false,
             exit_code: None,
+            answered_request: None,
             exception_filters: vec![
                 EXCEPTION_FILTER_SIGNAL.to_string(),
                 EXCEPTION_FILTER_PROCESS.to_string(),
@@ -467,7 +471,9 @@ impl DebugSession {
         let value = serde_json::to_value(rsp)?;
 
         let mut lock = self.io.lock().unwrap();
-        lock.write_message(&value)
+        lock.write_message(&value)?;
+        self.answered_request = Some(req.seq);
+        Ok(())
     }
 
     fn send_event(&mut self, name: &'static str) -> anyhow::Result<()> {
@@ -670,10 +676,21 @@ impl DebugSession {
             if req.r#type != "request" {
                 continue;
             }
+            self.answered_request = None;
             let cont = match self.dispatch(&req, &oracles) {
                 Ok(cont) => cont,
                 Err(e) => {
-                    let _ = self.send_err(&req, format!("{e:#}"));
+                    if self.answered_request == Some(req.seq) {
+                        // The request was answered before it failed (`continue` responds
+                        // before it blocks): a second response would break the protocol,
+                        // report the late failure as output instead.
+                        self.enqueue_event(InternalEvent::Output {
+                            category: "stderr",
+                            output: format!("{}: {e:#}\n", req.command),
+                        });
+                    } else {
+                        let _ = self.send_err(&req, format!("{e:#}"));
+                    }
                     true
                 }
             };
